@@ -15,7 +15,7 @@ EXPLANATION = (
     "table together with the well-formedness of every grammar row (C09) is the grammar's language; inst_index has one writer (MIR "
     "census). A small scope of witness words, not a proof over all word values; the nested operand grammar of OpSpecConstantOp beyond "
     "the evaluated cases is not decided.")
-EXHAUSTIVE = True
+EXHAUSTIVE = False     # the abstract inputs are a stated finite scope, not the whole input space
 
 PAR = "rspirv::binary::parser"
 
